@@ -330,7 +330,8 @@ func init() {
 			if m == nil {
 				m = M{}
 			}
-			m["bad name!"] = objs[sec]
+			// an illegal character, the empty name, a name that is legal but for its last character
+			m[[]string{"bad name!", "", "trailing/"}[(v/len(sections))%3]] = objs[sec]
 			n.Obj[sec] = m
 			return true
 		}},
@@ -954,7 +955,7 @@ func gen(t *rapid.T) Case {
 	if rapid.IntRange(0, 7).Draw(t, "mutate") > 0 {
 		c.Rule = rapid.SampledFrom(ruleNames()).Draw(t, "rule")
 		c.Node = rapid.IntRange(0, 400).Draw(t, "node")
-		c.Variant = rapid.IntRange(0, 23).Draw(t, "variant")
+		c.Variant = rapid.IntRange(0, 26).Draw(t, "variant")
 	}
 	c.Opts = rapid.IntRange(0, 63).Draw(t, "opts")
 	c.PreCompiler = rapid.IntRange(0, 3).Draw(t, "precompiler") == 0
@@ -1003,7 +1004,7 @@ func enumerate(shard, nshards int, yield func(Case)) {
 		case "header:style-illegal":
 			variants = 3
 		case "components:bad-name":
-			variants = 9
+			variants = 27
 		case "param:schema-and-content":
 			variants = 3
 		case "param:bad-example", "mediatype:bad-example":
